@@ -495,7 +495,7 @@ def oracle(case, out, stats):
 # nothing else: the covariance reported after an estimate must be  variance * A (G)^-1 A^T  with G the normal matrix of
 # rows 0..n-1 as they were when that estimate ran (row-scaled by the weights for the weighted estimate) — exact rationals.
 EPS64 = 2.0 ** -52
-HIST_COND_LIMIT = 1e6       # generated problems keep cond(G) below this at every estimate
+HIST_COND_LIMIT = 1e10      # generated problems keep cond(G) = cond(J)^2 below this at every estimate (cond(J) < 1e5: inside C07's domain)
 
 
 class LsShadow:
@@ -716,6 +716,10 @@ def _history_case(rng, idx):
         jm = _well_conditioned(rng, n, e)
         scale = rng.loguniform(0.05, 20.0)          # problems of one history differ grossly in scale: so do their covariances
         sc = [scale * rng.loguniform(0.3, 3.0) for _ in range(e)]
+        if rng.chance(0.25):
+            # columns over several decades: cond(J) up to ~1e5 (seeded change c12d: a RELATIVE cut sigma_max * sqrt(eps) on the
+            # singular values of J^T J — the squared ones of J — drops the largest-variance direction for cond(J) > 8192)
+            sc = [scale * 10.0 ** rng.uniform(-2.2, 2.2) for _ in range(e)]
         jm = [[jm[r][c] * sc[c] for c in range(e)] for r in range(n)]
         return jm, [rng.gauss() * rng.choice([1.0, 1.0, 100.0]) for _ in range(n)]
 
